@@ -35,6 +35,15 @@ func provEdits(prov string, n int, withRdt bool) specs.ContainerEdits {
 		Hooks:          []*specs.Hook{{HookName: "prestart", Path: "/hook/" + prov, Args: []string{prov}}, {HookName: "poststop", Path: "/hook/stop/" + prov, Timeout: iptr(n)}},
 		AdditionalGIDs: []uint32{uint32(1000 + n), 100},
 	}
+	// entries whose complete value repeats in every second / third edit list: a selection can
+	// contain the same entry twice with a different one in between (a, b, a) - merging must keep
+	// all of them in order (last wins for env / mounts / device nodes, hooks all run)
+	alt2, alt3 := fmt.Sprint(n%2), fmt.Sprint(n%3)
+	e.Env = append(e.Env, "ALT2="+alt2, "ALT3="+alt3)
+	e.DeviceNodes = append(e.DeviceNodes, &specs.DeviceNode{Path: "/dev/alt", Type: "c", Major: int64(300 + n%2), Minor: 3})
+	e.Mounts = append(e.Mounts, &specs.Mount{HostPath: "/host/alt/" + alt2, ContainerPath: "/alt"})
+	e.Hooks = append(e.Hooks, &specs.Hook{HookName: "prestart", Path: "/hook/alt", Args: []string{"alt", alt2}})
+	e.AdditionalGIDs = append(e.AdditionalGIDs, uint32(2000+n%2))
 	if withRdt {
 		e.IntelRdt = &specs.IntelRdt{ClosID: "clos-" + prov}
 	}
